@@ -10,6 +10,7 @@ import (
 	"strings"
 
 	"gitlab.com/aquachain/aquachain/common"
+	"gitlab.com/aquachain/aquachain/common/log"
 	"gitlab.com/aquachain/aquachain/core"
 	"gitlab.com/aquachain/aquachain/core/types"
 	"gitlab.com/aquachain/aquachain/core/vm"
@@ -66,6 +67,8 @@ func scenarios(sender common.Address, senderNonce uint64) []scenario {
 		{name: "to-self", to: sender, needGas: 0},
 		{name: "to-coinbase", to: coinbase, needGas: 0},
 		{name: "precompile-identity", to: common.BytesToAddress([]byte{4}), needGas: 1000},
+		{name: "precompile-ripemd", to: common.BytesToAddress([]byte{3}), needGas: 2000},
+		{name: "precompile-sha256", to: common.BytesToAddress([]byte{2}), needGas: 1000},
 		{name: "sstore-set", to: callee, code: A().SStore(0, 1).Op(STOP).B, needGas: 30000},
 		{name: "revert", to: callee, code: A().SStore(0, 1).Push(0).Push(0).Op(REVERT).B, needGas: 30000, byzOnly: true},
 		{name: "oog-loop", to: callee, code: A().Op(JUMPDEST).SStore(0, 1).Push(0).Op(JUMP).B, needGas: 60000},
@@ -134,6 +137,7 @@ type txCase struct {
 	bal      *big.Int
 	coinbase common.Address
 	class    string
+	emptyMask int // which of the candidate accounts exist-but-empty in the pre-state
 }
 
 func pickBig(c *vh.Ctx, xs ...*big.Int) *big.Int { return xs[c.Rng.Intn(len(xs))] }
@@ -286,25 +290,98 @@ func genCase(c *vh.Ctx) *txCase {
 		k.coinbase = k.sender
 		bclass += ",coinbase=sender"
 	}
-	// world
-	k.world = []Acct{{Addr: k.sender, Bal: k.bal, Nonce: k.stNonce}, {Addr: sink, Bal: big.NewInt(1000)}}
-	if !k.sc.create && (len(k.sc.code) > 0 || k.sc.calleeBal != nil) {
-		k.world = append(k.world, Acct{Addr: k.sc.to, Bal: k.sc.calleeBal, Code: k.sc.code, Storage: k.sc.storage})
+	if r.Intn(3) == 0 {
+		k.emptyMask = r.Intn(64)
+		c.Count("pre-state has empty existing accounts")
 	}
-	k.world = append(k.world, k.sc.extra...)
-	k.u = Universe{k.sender, coinbase, sink, fresh, callee, inner, common.BytesToAddress([]byte{4}),
-		crypto.CreateAddress(k.sender, k.stNonce), crypto.CreateAddress(callee, 0), crypto.CreateAddress(callee, 1)}.Sorted()
-	fmtByz := "pre-byz"
-	if byz {
-		fmtByz = "byz"
-	}
-	k.class = k.sc.name + "|" + fmtByz
+	k.finish(byz)
 	c.Count("cfg:" + k.cc.name)
 	c.Count(nclass)
 	c.Count(lclass)
 	c.Count(pclass)
 	c.Count(bclass)
 	c.Count("price:" + k.price.String())
+	return k
+}
+
+// finish builds the world and the universe of a case whose parameters are chosen
+func (k *txCase) finish(byz bool) {
+	k.world = []Acct{{Addr: k.sender, Bal: k.bal, Nonce: k.stNonce}, {Addr: sink, Bal: big.NewInt(1000)}}
+	if !k.sc.create && (len(k.sc.code) > 0 || k.sc.calleeBal != nil) {
+		k.world = append(k.world, Acct{Addr: k.sc.to, Bal: k.sc.calleeBal, Code: k.sc.code, Storage: k.sc.storage})
+	}
+	k.world = append(k.world, k.sc.extra...)
+	// accounts that exist but are empty (left-overs from before EIP-158): recipient, coinbase, precompiles, bystander
+	for i, a := range []common.Address{fresh, coinbase, common.BytesToAddress([]byte{2}), common.BytesToAddress([]byte{3}), common.BytesToAddress([]byte{4}), inner} {
+		if k.emptyMask&(1<<uint(i)) != 0 {
+			present := false
+			for _, w := range k.world {
+				if w.Addr == a {
+					present = true
+				}
+			}
+			if !present {
+				k.world = append(k.world, Acct{Addr: a})
+			}
+		}
+	}
+	k.u = Universe{k.sender, coinbase, sink, fresh, callee, inner, common.BytesToAddress([]byte{4}), common.BytesToAddress([]byte{3}), common.BytesToAddress([]byte{2}),
+		crypto.CreateAddress(k.sender, k.stNonce), crypto.CreateAddress(callee, 0), crypto.CreateAddress(callee, 1)}.Sorted()
+	fmtByz := "pre-byz"
+	if byz {
+		fmtByz = "byz"
+	}
+	k.class = k.sc.name + "|" + fmtByz
+}
+
+// directed cases, run on every seed: the sender holds the largest nonce (2^64-1) and sends a valid
+// call / creation (the known finding nonce-wraps-at-max-uint64), on both receipt formats
+const nDirected = 8
+
+func directedCase(i int) *txCase {
+	ccs := cfgChoices()
+	type spec struct {
+		cc        int    // index into cfgChoices
+		scenario  string
+		maxNonce  bool
+		value     int64
+		extraGas  int64  // gas above intrinsic; -1 = what the scenario needs
+		emptyMask int
+		tag       string
+	}
+	specs := []spec{
+		{0, "eoa-existing", true, 1, -1, 0, "max-nonce"}, {3, "create-ok", true, 1, -1, 0, "max-nonce"},
+		{2, "sstore-set", true, 1, -1, 0, "max-nonce"}, {5, "create-init-sstore", true, 1, -1, 0, "max-nonce"},
+		// a failing call (precompile out of gas) whose recipient is an existing empty account, after EIP-158: with value ...
+		{0, "precompile-identity", false, 1, 5, 1 << 4, "failed-call-existing-empty-recipient"},
+		// ... and the same on SHA-256
+		{7, "precompile-sha256", false, 3, 5, 1 << 2, "failed-call-existing-empty-recipient"},
+		// a failing call to a recipient that does not exist yet, before EIP-158
+		{4, "precompile-sha256", false, 0, 5, 0, "failed-call-missing-recipient-pre-eip158"},
+		{5, "precompile-identity", false, 0, 5, 0, "failed-call-missing-recipient-pre-eip158"},
+	}
+	sp := specs[i%len(specs)]
+	k := &txCase{sender: addrA, coinbase: coinbase, cc: ccs[sp.cc], price: big.NewInt(1), value: big.NewInt(sp.value), pool: 8000000, emptyMask: sp.emptyMask}
+	if sp.maxNonce {
+		k.stNonce, k.txNonce = ^uint64(0), ^uint64(0)
+	}
+	for _, sc := range scenarios(k.sender, k.stNonce) {
+		if sc.name == sp.scenario {
+			k.sc = sc
+		}
+	}
+	if k.sc.create {
+		k.data = k.sc.code
+	} else {
+		k.data = []byte{1, 0, 2}
+	}
+	k.limit = intrinsicSpec(k.data, k.sc.create) + k.sc.needGas
+	if sp.extraGas >= 0 {
+		k.limit = intrinsicSpec(k.data, k.sc.create) + uint64(sp.extraGas)
+	}
+	k.bal = Add(Mul(U(k.limit), k.price), Big("5000000000000000000"))
+	k.finish(k.cc.cfg.C.IsByzantium(new(big.Int).SetUint64(k.cc.num)))
+	k.class = "directed:" + sp.tag + ":" + k.class
 	return k
 }
 
@@ -399,7 +476,7 @@ func runCase(c *vh.Ctx, m *vh.Model, k *txCase) {
 	}
 	c.Eval(k.class+"|"+outcome, k.class+"|"+outcome+"|"+k.price.String()+"|"+fmt.Sprint(k.limit))
 	c.Correspond("core.ApplyTransaction~apply_transaction", req, observed, ans)
-	if len(c.Res.Samples) < 6 && c.Rng.Intn(40) == 0 {
+	if len(c.Res.Samples) < 6 && c.Res.Evaluations%97 == 0 {
 		c.Sample(map[string]string{"request": req, "observed": observed})
 	}
 
@@ -462,6 +539,44 @@ func runCase(c *vh.Ctx, m *vh.Model, k *txCase) {
 			}
 		}
 		return false
+	}
+	// 0. existence (EIP-161), independent of the model
+	deleteEmpty := cfg.IsByzantium(num) || cfg.IsEIP158(num)
+	// EIP-161: touched = sender, coinbase, and the recipient unless the execution failed (a reverted touch does not count)
+	involved := map[common.Address]bool{k.sender: true, k.coinbase: true}
+	if !failed {
+		involved[recipient] = true
+	}
+	for _, a := range k.u {
+		p, q := pre[a], post[a]
+		execTouched := traced && (!t.Start[a].Eq(t.End[a]) || t.End[a].Dirty != t.Start[a].Dirty || t.End[a].Exists != t.Start[a].Exists)
+		switch {
+		case deleteEmpty && involved[a] && q.Exists && q.Empty():
+			c.Violate("empty-touched-account-survives/"+k.sc.name, "an empty account touched by the transaction still exists after EIP-158: "+a.Hex(), replay)
+		case !deleteEmpty && p.Exists && !q.Exists && !suicided(a):
+			c.Violate("account-deleted-without-eip158/"+k.sc.name, "an account disappeared before EIP-158 without self-destructing: "+a.Hex(), replay)
+		case failed && a == recipient && p.Exists && !q.Exists && k.value.Sign() == 0 && a == common.BytesToAddress([]byte{3}):
+			// journal.go keeps a reverted zero-value touch of the RIPEMD-160 precompile on purpose (the Ethereum
+			// mainnet consensus quirk of EIP-161); counted, not reported
+			c.Count("oracle:ripemd-touch-survives-revert(consensus quirk)")
+		case failed && a == recipient && !p.Exists && q.Exists && !deleteEmpty:
+			// st.to() does CreateAccount(recipient) before evm.Call takes its snapshot: the new empty account survives the revert
+			c.Violate("failed-tx-creates-empty-recipient", "before EIP-158 a failed execution leaves a newly created empty recipient account "+a.Hex()+" in the state (only the fee and the nonce may survive a failure)", replay)
+		case failed && a == recipient && !involved[a] && p.Exists && !q.Exists:
+			// same root cause as the C09 finding: balanceChange.undo leaves the object in stateObjectsDirty (and the
+			// RIPEMD special case keeps a reverted touch), so Finalise deletes an account the failed call only touched
+			c.Violate("failed-tx-deletes-empty-recipient", "a failed execution removed the pre-existing empty recipient "+a.Hex()+" from the state (only the fee and the nonce may survive a failure)", replay)
+		case !involved[a] && !(execTouched && !failed) && p.Exists != q.Exists:
+			c.Violate("untouched-account-existence-changed/"+k.sc.name, "existence of an account the transaction did not touch changed: "+a.Hex(), replay)
+		case !q.Exists && !q.Empty():
+			c.Violate("content-without-account/"+k.sc.name, "a non-existent account has content: "+a.Hex(), replay)
+		}
+		if p.Exists && p.Empty() && !q.Exists {
+			c.Count("oracle:pre-existing-empty-account-deleted")
+		}
+		if q.Exists && q.Empty() {
+			c.Count("oracle:empty-account-exists-after")
+		}
 	}
 	// 1. nonce
 	if pre[k.sender].Nonce == ^uint64(0) && post[k.sender].Nonce == 0 {
@@ -579,6 +694,16 @@ func runCase(c *vh.Ctx, m *vh.Model, k *txCase) {
 	if k.sc.create && rc.ContractAddress != crypto.CreateAddress(k.sender, k.stNonce) {
 		c.Violate("receipt-contract-address/"+k.sc.name, "wrong contract address in receipt", replay)
 	}
+	// 7. the real state root against a fresh state built from the expected content (only when the
+	//    universe-restricted comparison agreed: this catches what that comparison cannot see)
+	if observed == ans {
+		want, err := ExpectedRoot(sdb, kv(ans, "state"))
+		got := sdb.IntermediateRoot(cfg.IsEIP158(num))
+		if err != nil || want != got {
+			c.Violate("state-root-differs-from-expected-content/"+k.sc.name, fmt.Sprintf("real root %x, root of the expected content %x (%v)", got, want, err), replay)
+		}
+		c.Count("oracle:state-root-checked")
+	}
 	// the universe must be complete: nothing outside it holds anything
 	_, addrs := Supply(sdb, cfg.IsEIP158(num))
 	in := map[common.Address]bool{}
@@ -587,7 +712,7 @@ func runCase(c *vh.Ctx, m *vh.Model, k *txCase) {
 	}
 	for _, a := range addrs {
 		if !in[a] {
-			c.Fatal("harness universe incomplete: %s (scenario %s)", a.Hex(), k.sc.name)
+			c.Violate("account-outside-universe/"+a.Hex()+"/"+k.sc.name, "the state holds an account that no step of this transaction can have created (every address the scenario can reach is in the compared universe)", replay)
 		}
 	}
 }
@@ -810,10 +935,19 @@ func runBlock(c *vh.Ctx, m *vh.Model, b *blockCase) {
 	}
 	c.Eval(b.class+"|"+out, b.class+"|"+out)
 	c.Correspond("StateProcessor.Process+ValidateState~process", req, observed, ans)
+	if observed == ans && perr == nil && !pan {
+		want, err := ExpectedRoot(sdbB, kv(ans, "state"))
+		got := sdbB.IntermediateRoot(cfg.IsEIP158(num))
+		if err != nil || want != got {
+			c.Violate("state-root-differs-from-expected-content/block", fmt.Sprintf("real root %x, root of the expected content %x (%v)", got, want, err), map[string]interface{}{"class": b.class, "request": req})
+		}
+		c.Count("oracle:state-root-checked")
+	}
 }
 
 func main() {
 	c := vh.Init("C06")
+	log.Root().SetHandler(log.DiscardHandler())
 	m := c.StartModel()
 	defer m.Close()
 	c.Res.Rule = "single transactions through core.ApplyTransaction over the lattice sender balance {limit*price-1,..,limit*price+value+1,big} x nonce {-1,0,+1} x price {0,1,1e9,2^64+3} x limit {intrinsic-1,intrinsic,intrinsic+1,partial,enough,ample} x pool {limit-1,limit,limit+1,big} x data zero/non-zero mixes x callee program (plain, precompile, SSTORE set/clear at and below the refund cap, REVERT, out-of-gas, invalid, logs then failure, value out to sink/sender/coinbase, SELFDESTRUCT variants, inner failing call, inner CREATE, creations: ok/empty/revert/invalid/code-deposit/collision/funded address) x 10 (config,height) points on both sides of Byzantium; plus blocks of 1-4 transactions from two senders through StateProcessor.Process and ValidateState with tight/exact/ample block gas limits and wrong claimed gas used. A case is distinct by (scenario, receipt format, outcome, price, limit)."
@@ -845,13 +979,39 @@ func main() {
 		}
 	}
 	_ = params.TxGas
+	seed := c.Seed
+	one := func(part string, i int) {
+		from := len(c.Res.Violations)
+		CaseRng(c, seed, part, i)
+		switch part {
+		case "directed":
+			runCase(c, m, directedCase(i))
+		case "tx":
+			runCase(c, m, genCase(c))
+		case "block":
+			runBlock(c, m, genBlock(c))
+		default:
+			c.Fatal("unknown replay part %q", part)
+		}
+		TagViolations(c, from, seed, part, i)
+	}
+	if rp := LoadReplay(c); rp != nil {
+		seed = rp.Seed
+		one(rp.Part, rp.Index)
+		c.Note("replayed case seed=%d part=%s index=%d", rp.Seed, rp.Part, rp.Index)
+		c.Finish()
+		return
+	}
+	for i := 0; i < nDirected; i++ {
+		one("directed", i)
+	}
 	n := c.Scale(2500, 60000)
 	for i := 0; i < n; i++ {
-		runCase(c, m, genCase(c))
+		one("tx", i)
 	}
 	nb := c.Scale(400, 10000)
 	for i := 0; i < nb; i++ {
-		runBlock(c, m, genBlock(c))
+		one("block", i)
 	}
 	c.Finish()
 }
